@@ -128,6 +128,39 @@ def run(tier, wd):
             if drift <= 3:
                 rep.notes.append("drift: spec=%r env=%s argv=%s: library %s %s, OpModel %s %s" % (opfam[c["si"]]["str"], c["env"], c["argv"],
                                  "accepts" if r["ran"] else "rejects", sorted(refenum.observed_map(r)), "accepts" if c["accepted"] else "rejects", sorted(c["binds"])))
+    # step-level conformance of the modelled algorithm (drift only): (a) the prepared automaton of the model is the library's,
+    # state by state and transition by transition; (b) the sequence of apply calls (state, arguments, options-ended flag) the
+    # library made - reconstructed from the recorded Matcher.Match calls - is the sequence the model made
+    from vlib import structeq
+    dres = core.run_harness(binpath, "dump", [{"prog": 0, "spec": s_["str"]} for s_ in opfam], sub, env={"HARNESS_PROGS": pf})
+    graphs = {c["si"]: c["graph"] for c in opcases if c["graph"]}
+    auto_same = 0
+    for i, (s_, r) in enumerate(zip(opfam, dres)):
+        if r.get("skipped") or not r.get("auto") or i not in graphs:
+            continue
+        a = r["auto"]
+        why = opmodel.same_automaton(graphs[i], {"term": a["term"], "trans": [[{"l": structeq.label(t["l"]), "n": t["n"]} for t in st] for st in a["trans"]]})
+        if why:
+            drift += 1
+            rep.notes.append("drift: prepared automaton of %r: %s" % (s_["str"], why))
+        else:
+            auto_same += 1
+    mres = core.run_harness(binpath, "match", [{"id": k, "prog": 0, "spec": opfam[c["si"]]["str"], "env": c["env"], "argv": c["argv"]} for k, c in enumerate(opcases)],
+                            sub, env={"HARNESS_PROGS": pf}, deadline_ms=3000)
+    hist_same = hist_diff = 0
+    for c, r in zip(opcases, mres):
+        if r.get("skipped") or r.get("hang") or r.get("crash") or c["si"] not in graphs or len(r.get("events", [])) >= 4000:
+            continue
+        why = opmodel.compare_history(c, graphs[c["si"]], r["events"])
+        if why:
+            hist_diff += 1
+            if hist_diff <= 3:
+                rep.notes.append("drift: search of %r on %s (env %s): %s" % (opfam[c["si"]]["str"], c["argv"], c["env"], why))
+        else:
+            hist_same += 1
+    drift += hist_diff
+    rep.cov["opmodel_automata_identical"] = auto_same
+    rep.cov["opmodel_search_histories_identical"] = hist_same
     rep.cov["opmodel_drift"] = drift
     cnt = {"spec_error": 0, "accepted": 0, "usage_error": 0}
     nontriv = set()
